@@ -195,7 +195,7 @@ def reduced_matrix(ctx, rev, d, d2, mix, m, reweight):
         U = np.asarray(D.tt_full_open(ctx, [c.reshape(c.shape[0], c.shape[1], 1, c.shape[2]) for c in u])).reshape(-1, r)
         ww = np.ones(m) if w is None else np.array(w)
         h = 1e-4
-        Mexp = np.zeros((r, r))
+        Mexp = np.zeros((r, r), dtype=complex)
         for l in range(m):
             pt = np.asarray(x)[:, l]
             rows = []
